@@ -144,3 +144,25 @@ Example C11_nonvacuous :
     = Some [ (ex_ecu, [msg_name ex_cmd], [(msg_name ex_status, true)]); (ex_gateway, [msg_name ex_status], []) ] /\
   (28 <= length (db_convs ex_db))%nat /\ db_convs_ok ex_db = true /\ db_convs_ok_old ex_db = false.
 Proof. exact ex_db_facts. Qed.
+
+(** WIRING TIE FOR NODE TYPES (Gen/Wiring.v; DESIGN.md 9.6 "Wiring tie for generated code"). [p_nodegens p] is the strict
+    reading of the emitted node types (harness/genwire): per node the Rx/Tx container structs, the rx/tx message types and the
+    message type each embeds, the cases of ReceivedMessage, the list of TransmittedMessages, Descriptor(). If the checker
+    [nodes_wiring_ok db p] - evaluated on every generated package of every run of this check - accepts, then: node code exists
+    exactly when some message has a send type; and for every node of the database, in order, there is the node type of that
+    name, whose Descriptor() is that node's nd entry, whose ReceivedMessage(id) returns, for EVERY id, the rx instance of the
+    FIRST message of [collect_rx db n] (messages with a signal whose receivers contain the node, database order) whose ID is id,
+    and (nil, false) when there is none, and whose TransmittedMessages() lists exactly [collect_tx db n] (messages sent by the
+    node that have a send type), in database order *)
+From CanVerif Require Gen.Wiring Gen.WiringProofs.
+Theorem C11_wiring_nodes : forall db p,
+  Wiring.nodes_wiring_ok db p = true ->
+  (has_send_type db = false -> Wiring.p_nodegens p = []) /\
+  (has_send_type db = true ->
+   Forall2 (fun n ng =>
+      Wiring.ng_name ng = node_name n /\ Wiring.ng_desc ng = node_name n /\
+      (forall id, Wiring.wiring_received ng id =
+                  Some (match find_message (collect_rx db n) id with Some m => Some (msg_name m) | None => None end)) /\
+      Wiring.wiring_transmitted ng = Some (map msg_name (collect_tx db n))) (db_nodes db) (Wiring.p_nodegens p)).
+Proof. exact WiringProofs.nodes_wiring_correct. Qed.
+Print Assumptions C11_wiring_nodes.
